@@ -78,5 +78,5 @@ ITEMS = [
     {"path": UN, "qualname": "LogitechUnifyingCryptoManager.generateAESInputData",
      "spec": {"name": "un_aes_input", "inputs": [["counter", "counter", "N"]]},
      "model": "un_aes_in (be_bytes 4 counter)", "gen": lambda rng: {"counter": _u32(rng)},
-     "live": "def live(a):\n    return MOD.LogitechUnifyingCryptoManager.generateAESInputData(None, a['counter'])\n"},
+     "live": "def live(a):\n    return MOD.LogitechUnifyingCryptoManager.generateAESInputData(OBJ(MOD.LogitechUnifyingCryptoManager), a['counter'])\n"},
 ]
